@@ -28,6 +28,7 @@ def step (d : DSt) (toks : List String) : DSt × String :=
   let g := Operon.Gen.MitoCaps.guards
   match toks with
   | ["cfg", al] => ({ allowed := capsOf al, st := {} }, "ok")
+  | ["cfg", al, _container] => ({ allowed := capsOf al, st := {} }, "ok")   -- container type of the ceiling: irrelevant
   | ["reg", n, body, req, caps, r] =>
     ({ d with st := { d.st with reg := d.st.reg.set n ⟨natD body, capsOf req, capsOf caps, boolOf r⟩ } }, "ok")
   | ["reg", n, body, req, caps, r, _style] =>      -- style of the Python tool object: irrelevant to the model
